@@ -36,11 +36,19 @@ func rotateSuits(deck []string) []string {
 // pollute plays a whole hand on the same deck under the other ranking table.
 func pollute(cfg *Cfg) {
 	defer func() { recover() }()
+	playPassiveHand(cfg, true)
+}
+
+// playPassiveHand plays a complete check/call hand with cfg's options on
+// cfg's deck order, with cfg's ranking table or the other one.
+func playPassiveHand(cfg *Cfg, otherRanking bool) {
 	opts := cfg.Options()
-	if cfg.Short {
-		opts.CombinationPowers = combination.CombinationPowerStandard
-	} else {
-		opts.CombinationPowers = combination.CombinationPowerShortDeck
+	if otherRanking {
+		if cfg.Short {
+			opts.CombinationPowers = combination.CombinationPowerStandard
+		} else {
+			opts.CombinationPowers = combination.CombinationPowerShortDeck
+		}
 	}
 	g := pokerface.NewGame(opts)
 	if g.Start() != nil {
@@ -125,11 +133,12 @@ func execute(cfg *Cfg, steps []sim.Step) (out []string, fault string) {
 // twinStart runs the pollution before anything of this run touches the deck
 // (so that the run itself is execution A).
 func (r *run) twinStart() {
-	if !r.on("C07") || !r.cfg.Twin || r.cfg.Invalid != "" {
+	if !r.cfg.Twin || r.cfg.Invalid != "" || !(r.on("C07") || r.on("C10") || r.on("C02")) {
 		return
 	}
 	pollute(r.cfg)
-	r.twinOn = true
+	r.res.Count("fault.hand-with-the-other-ranking-table-played-first", 1)
+	r.twinOn = r.on("C07")
 }
 
 func (r *run) twinCheck() {
